@@ -166,6 +166,29 @@ def bfsLevels (s : Store) : Nat → List Nat → List Nat → List Nat → Outco
 def breadthFirstSearch (s : Store) (name : Nat) : Outcome (List Nat) :=
   s.bfsLevels (s.numNodes + 2) [name] [] []
 
+/-- `breadth_first_search` since the F24 repair: the same search, each level visited in ascending name order
+    (`this_level.sort()`), which fixes the order of the returned list. `bfsLevels` above leaves the order of a level to the
+    list it is handed (the hash order of the code before the repair); the C10 theorems hold for every such order and are
+    stated for `bfsLevels`; this function is what the exact-order correspondence (`agree.bfsorder`) runs. -/
+def bfsLevelsOrdered (s : Store) : Nat → List Nat → List Nat → List Nat → Outcome (List Nat)
+  | 0, _, _, ret => .ok ret
+  | fuel + 1, level, seen, ret =>
+    if level.isEmpty then .ok ret
+    else
+      let r := (sortNat level).foldl (fun (acc : Outcome (List Nat × List Nat × List Nat)) v => do
+        let (seen, ret, next) ← acc
+        if seen.contains v then .ok (seen, ret, next)
+        else do
+          let nb ← s.getSuccessorsOrNeighbors v
+          .ok (sinsert seen v, ret ++ [v], sunion next (dedup (nb.map (·.name))))) (.ok (seen, ret, []))
+      match r with
+      | .ok (seen, ret, next) => bfsLevelsOrdered s fuel next seen ret
+      | .err k => .err k
+      | .panic site => .panic site
+
+def breadthFirstSearchOrdered (s : Store) (name : Nat) : Outcome (List Nat) :=
+  s.bfsLevelsOrdered (s.numNodes + 2) [name] [] []
+
 def numberOfNodes (s : Store) : Nat := s.nodesVec.length
 def numberOfEdges (s : Store) : Nat := sumNat (s.edges.map fun kv => kv.2.length)
 def sizeUnweighted (s : Store) : Nat := s.allEdges.length
